@@ -7,25 +7,26 @@
 # stable-pass test of the baseline did not pass.
 export GOFLAGS=-mod=mod GOPROXY=off GOSUMDB=off GOTOOLCHAIN=local
 cd "$(dirname "$0")"
+REPO=${VP_RUN_REPO:-/repo}
 OUT=$PWD/.work/baseline; rm -rf "$OUT"; mkdir -p "$OUT"
-before=$(git -C /repo status --porcelain)
+before=$(git -C $REPO status --porcelain)
 if [ "$1" = fast ]; then
-  run() { (cd /repo/$1 && go test -json -vet=off -count=1 -timeout 25m $2) > "$OUT/$3.json" 2>"$OUT/$3.err"; }
+  run() { (cd $REPO/$1 && go test -json -vet=off -count=1 -timeout 25m $2) > "$OUT/$3.json" 2>"$OUT/$3.err"; }
   run . ./... root
   run etcd/raft ./... raft
   run etcd/server "./storage/wal/... ./etcdserver/api/snap/..." server
   run etcd/client/pkg ./fileutil/... clientpkg
 else
-  for gm in $(cd /repo && find . -name go.mod -not -path '*/tools/*' | sort); do
+  for gm in $(cd $REPO && find . -name go.mod -not -path '*/tools/*' | sort); do
     m=$(dirname "$gm"); n=$(echo "$m" | tr '/.' '__')
-    (cd /repo/$m && go test -json -vet=off -count=1 -timeout 25m ./...) > "$OUT/$n.json" 2>"$OUT/$n.err"
+    (cd $REPO/$m && go test -json -vet=off -count=1 -timeout 25m ./...) > "$OUT/$n.json" 2>"$OUT/$n.err"
   done
 fi
 # go test with -mod=mod may touch go.mod/go.sum inside /repo; put those (and only those) back
-after=$(git -C /repo status --porcelain)
+after=$(git -C $REPO status --porcelain)
 if [ "$before" != "$after" ]; then
-  git -C /repo status --porcelain | awk '{print $2}' | grep -E '(^|/)go\.(mod|sum)$' | while read f; do
-    echo "$before" | grep -q " $f$" || git -C /repo checkout -- "$f"; done
+  git -C $REPO status --porcelain | awk '{print $2}' | grep -E '(^|/)go\.(mod|sum)$' | while read f; do
+    echo "$before" | grep -q " $f$" || git -C $REPO checkout -- "$f"; done
 fi
 python3 - "$OUT" "$1" <<'PY'
 import json, sys, glob, os
